@@ -255,6 +255,9 @@ def uses_reserved(text):
     return re.search(r'(?m)^\s*(?:jump|jumpif\s*\(.*\))\s+__bareScript|^\s*__bareScript\w*\s*:\s*$', text) is not None
 
 
+START_LINES = [0, 2, 7, 1000, -3, 1]       # every third accepted text is parsed once more with one of these as start_line_number
+
+
 def judge(chk, tag, text, res, counters):
     """direct oracle on one implementation result"""
     if 'ok' not in res:
@@ -316,7 +319,8 @@ def run(tier):
     def process(batch, corr_budget):
         """batch: list of (tag, text, exec?)  -> run the implementation, judge, retain some for the correspondence"""
         payload = [{'text': t, 'validate': not tag.startswith('shape-function:d4'), 'lint': True,
-                    'exec': ENVS if ex is True else ex, 'canon': False, 'max': 300} for tag, t, ex in batch]
+                    'exec': ENVS if ex is True else ex, 'canon': False, 'max': 300,
+                    **({'start': START_LINES[k % len(START_LINES)]} if k % 3 == 0 else {})} for k, (tag, t, ex) in enumerate(batch)]
         results = core.run_impl('c07_lower', payload)
         for (tag, text, _), res in zip(batch, results):
             g = tag.split(':')[0]
